@@ -149,3 +149,26 @@ Proof.
   intros k sec sg key A B [<-|[]] _. destruct k as [|k]; cbn in A; [|destruct k; discriminate].
   injection A as <-. reflexivity.
 Qed.
+
+(* the hypotheses of the corruption theorem hold in a concrete environment, together with a VALID update *)
+Lemma toy_sha_collision_free : forall m m', toy_sha m = toy_sha m' -> m = m'.
+Proof. intros m m' H. exact H. Qed.
+
+Lemma toy2_binds_hash : forall spki spki' h h' sg,
+  sig_ok toy_load toy2_verify spki h sg = true -> sig_ok toy_load toy2_verify spki' h' sg = true -> h = h'.
+Proof.
+  intros spki spki' h h' sg. unfold sig_ok, toy_load, toy2_verify. cbn [andb].
+  destruct (bytes_eqb sg (hd 0 spki :: h)) eqn:E; [|discriminate].
+  destruct (bytes_eqb sg (hd 0 spki' :: h')) eqn:E'; [|discriminate].
+  intros _ _. apply bytes_eqb_eq in E. apply bytes_eqb_eq in E'. congruence.
+Qed.
+
+Definition w2_data : bgpsec_c :=
+  mk_bgpsec_c 1 1 1 65002 65002 1 1 (mk_nlri_c 1 1 24 [192; 0; 2])
+              [mk_sgs w_ski (7 :: [0; 0; 253; 234; 1; 0; 0; 0; 253; 233; 1; 0; 1; 1; 24; 192; 0; 2])]
+              [mk_sps 1 0 65001].
+
+Lemma w2_valid : digest_for_hop 0 (to_update w2_data)
+                 = Some [0; 0; 253; 234; 1; 0; 0; 0; 253; 233; 1; 0; 1; 1; 24; 192; 0; 2] /\
+                 validate toy_sha toy_load toy2_verify w2_data w_table_ok = Some BGPSEC_VALID.
+Proof. split; vm_compute; reflexivity. Qed.
